@@ -659,6 +659,12 @@ class LoopMixin:
             ln = o.line or getattr(fdef, "end_lineno", 0)
             if o.kind in ("break", "continue"):
                 raise Unsupported("break/continue outside loop")
+            # parameters that alias a heap field (`obj.field = param`): the caller's object is what the field holds now
+            for n in pnames:
+                lk = s2.ghost.get(("link", n))
+                if lk is not None and n in s2.env and n not in s2.rebound:
+                    s2.env[n] = self.read_field(s2, lk[0], lk[2])
+                    del s2.ghost[("link", n)]
             if o.kind in ("normal", "return"):
                 self.check_frame(s2, old, init_env, ln)
             penv = dict(s2.env)
